@@ -46,7 +46,7 @@ CONFIGS = {
 SAN_ENV = {
     "ASAN_OPTIONS": "abort_on_error=1:detect_leaks=0:handle_abort=1:detect_stack_use_after_return=0:allocator_may_return_null=1",
     "UBSAN_OPTIONS": "print_stacktrace=1:halt_on_error=1",
-    "TSAN_OPTIONS": "halt_on_error=0:exitcode=0:report_signal_unsafe=0:history_size=4:second_deadlock_stack=0:suppress_equal_addresses=0",
+    "TSAN_OPTIONS": "halt_on_error=0:exitcode=0:report_signal_unsafe=0:history_size=4:second_deadlock_stack=0",
 }
 
 
@@ -184,10 +184,14 @@ def run_harness(run, tier, seed, res, only_case=None):
         if run.get("mpi"):
             cmd += ["mpirun", "--allow-run-as-root", "--oversubscribe", "-np", str(run["mpi"])]
         cmd += [exe, "--seed", str(seed), "--tier", tier, "--out", outf.name]
+        # ThreadSanitizer keeps a list of racy addresses that only grows; after some dozens of cases every racy access pays a
+        # scan of it. A fresh process every 25 cases keeps that bounded.
+        chunk = run.get("chunk", 25 if cfg == "tsan" else 0)
+        upto = min(ncases, start + chunk) if chunk else ncases
         if only_case is not None:
             cmd += ["--only", str(only_case)]
         else:
-            cmd += ["--cases", str(ncases), "--start", str(start)]
+            cmd += ["--cases", str(upto), "--start", str(start)]
         for k, v in sorted(run.get("params", {}).items()):
             cmd += ["--param", "%s=%s" % (k, v)]
         env = dict(os.environ)
@@ -198,7 +202,7 @@ def run_harness(run, tier, seed, res, only_case=None):
         else:
             env.pop("GALOIS_VERIF_TOPO", None)
         env.update({k: str(v) for k, v in run.get("env", {}).items()})
-        remaining = (1 if only_case is not None else ncases - start)
+        remaining = (1 if only_case is not None else upto - start)
         timeout = base_to + per_case_to * remaining
         timed_out = False
         with open(errf.name, "w") as ef:
@@ -206,7 +210,7 @@ def run_harness(run, tier, seed, res, only_case=None):
                                  preexec_fn=os.setsid)
             # two wall-clock watchdogs, both only ever produce "inconclusive": the whole run, and a stall watchdog on the
             # event stream (a case that neither ends nor is convicted by the in-process logical monitor)
-            stall_to = max(15 * per_case_to, 600)
+            stall_to = max(15 * per_case_to, 600) if cfg != "tsan" else max(5 * per_case_to, 300)
             t0 = time.time()
             last_size, last_growth = -1, t0
             rc = None
@@ -278,6 +282,9 @@ def run_harness(run, tier, seed, res, only_case=None):
             start = c + 1
             continue
         if rc == 0 and done_seen:
+            if only_case is None and upto < ncases:
+                start = upto
+                continue
             break
         if rc == 3:
             # HANG reported by the in-process monitor (violation already recorded)
